@@ -1033,15 +1033,9 @@ class NodeFor:
             + (
                 self.identifiers[0]
                 if len(self.identifiers) == 1
-                else "[" + self.identifiers + "]"
+                else "[" + ", ".join(self.identifiers) + "]"
             )
-            + " in "
-            + self.what
-            + " "
-            + self.expression
-            + " do "
-            + self.block
-            + ")"
+            + f" in {self.what} {self.expression} do {self.block})"
         )
 
     def collectVars(self, freeVars, boundVars, additionalBoundVars):
